@@ -292,7 +292,7 @@ fn main() {
         sink.merge(grid_sweep(&run, &[&DTLS_HANDSHAKE], 64, &|c, n| cat::hello_grid(server, true, thorough, c, n), &no_wrap, &extra));
         sink.merge(grid_sweep(&run, &[&DTLS_RECORD], 64, &|c, n| cat::hello_grid(server, true, false, c, n), &|m| cat::dtls_record(0x16, 0xfefd, 0, 1, |w| { w.append(m); }), &extra));
     }
-    for style in [1u8, 3, 4, 6, 7, 8, 10, 11, 12, 13, 14, 15, 16, 17, 18, 19] {
+    for style in [1u8, 3, 4, 6, 7, 8, 10, 11, 12, 13, 14, 15, 16, 17, 18, 19, 20, 21] {
         use vcommon::en::with_fill_style as wfs;
         sink.merge(struct_sweep(&run, &[&DTLS_HANDSHAKE], &wfs(style, cat::dtls_handshake_messages), 0, &sfx, 64, &extra));
         sink.merge(struct_sweep(&run, &[&DTLS_RECORD], &wfs(style, cat::dtls_records), 0, &sfx, 48, &extra));
